@@ -154,6 +154,12 @@ def api_session(case, tok):
     out = {"replies": []}
     try:
         bp = make_factory(case, created)()
+        names = [EQN[e] for e in eqs]
+        bdict = lambda: ";".join("%d=" % e + ",".join("%s:%s" % (tok(t), fbits(v)) for t, v in d_[SM][SC]["equations"][EQN[e]].items()) for e in eqs)
+        if case.get("reuse"):
+            # wave 7: ONE bptk object is used for a batch run, then the session, then a batch run again (derived state between operations)
+            d_ = bp.run_scenarios(scenarios=[SC], scenario_managers=[SM], equations=names, return_format="dict", series_names={})
+            out["batch_before"] = bdict()
         bp.begin_session(scenarios=[SC], scenario_managers=[SM], equations=[EQN[e] for e in eqs])
         out["dt"] = bp.session_state["dt"]
         def one(v):
@@ -174,6 +180,9 @@ def api_session(case, tok):
         out["byeq"] = canon_byeq(bp.session_results(index_by_time=False, flat=False), eqs, tok)
         out["flat"] = canon_flat(bp.session_results(index_by_time=False, flat=True), eqs)
         bp.end_session()
+        if case.get("reuse") and all(c[-1] is None for c in case["calls"]):
+            d_ = bp.run_scenarios(scenarios=[SC], scenario_managers=[SM], equations=names, return_format="dict", series_names={})
+            out["batch_after"] = bdict()
     finally:
         for b in created:
             b.destroy()
@@ -183,7 +192,7 @@ def api_session(case, tok):
 def rest_session(case, tok):
     from BPTK_Py.server import BptkServer
     created, eqs = [], case["eqs"]
-    out = {"replies": [], "per_call": [], "http": []}
+    out = {"replies": [], "per_call": [], "per_call_list": [], "http": []}
     try:
         app = BptkServer(__name__, make_factory(case, created))
         cl = app.test_client()
@@ -195,7 +204,11 @@ def rest_session(case, tok):
         out["http"].append(r.status_code)
         for c in case["calls"]:
             st = settings_of(c[-1], case)
-            if c[0] == "step":
+            if c[0] == "step" and case.get("flat"):
+                # wave 7: `flatResults` reply of run-step: values without time keys
+                r = cl.post("/%s/run-step" % iid, json={"settings": st if st is not None else {}, "flatResults": True})
+                reps = ["flat:" + canon_flat_step(json.loads(r.data), eqs)]
+            elif c[0] == "step":
                 # settings must be present in a JSON body; a call without body runs without settings
                 r = cl.post("/%s/run-step" % iid, json={"settings": st}) if st is not None else cl.post("/%s/run-step" % iid)
                 reps = [canon_step(_keys(json.loads(r.data)), eqs, tok)]
@@ -206,7 +219,7 @@ def rest_session(case, tok):
                 r = cl.post("/%s/stream-steps" % iid, json={"settings": st if st is not None else {}})
                 reps = [canon_step(_keys(x), eqs, tok) for x in json.loads(r.get_data(as_text=True))]
             out["http"].append(r.status_code)
-            out["per_call"].append("|".join(reps) or "-")
+            out["per_call_list"].append(reps)
             out["replies"] += reps
         out["byeq"] = canon_byeq(_keys(json.loads(cl.get("/%s/session-results" % iid).data)), eqs, tok)
         out["flat"] = canon_flat(json.loads(cl.get("/%s/flat-session-results" % iid).data), eqs)
@@ -613,7 +626,7 @@ EQSETS = [[2], [2, 1, 0], [3], [2, 3], [0, 1, 2, 3], [1], [3, 1]]
 
 def gen_calls(rng, n):
     calls, k = [], 0
-    val = lambda: None if rng.chance(1, 2) else rng.choice([10.0, 0.5, 3.0, 7.25, 0.0, -2.0])
+    val = lambda: None if rng.chance(1, 2) else rng.choice([10.0, 0.5, 3.0, 7.25, 0.0, -2.0, 0, 7, 1234567.0, 0.30000000000000004])   # wave 7: ints, large, many decimals
     for _ in range(rng.range(1, 6)):
         r = rng.below(10)
         if r < 4:
@@ -648,6 +661,10 @@ def gen_case(rng, fixed=None):
         case["family"] = "cdelay"            # delay of the changed constant
     elif r < 7:
         case["family"] = "points"            # step settings carry `points` (a new table for the graphical function k reads)
+    if rng.chance(1, 4):
+        case["flat"] = True                  # REST run-step with flatResults
+    if rng.chance(1, 4):
+        case["reuse"] = True                 # batch run before (and after) the session on the same bptk object
     if rng.chance(1, 5):
         case["multi"] = True                 # additionally: the same script in a two-scenario session
     if fixed:
@@ -736,6 +753,20 @@ def run_case(case, facts):
     tok = Tok(labels)
     api = api_session(case, tok)
     rest = rest_session(case, tok)
+    flat_problems = []
+    i = 0
+    for reps in rest["per_call_list"]:
+        for j, rep in enumerate(reps):
+            if rep.startswith("flat:"):
+                a_ = api["replies"][i] if i < len(api["replies"]) else None
+                want_ = "stopped" if a_ == "stopped" else (a_.split(":", 1)[1] if a_ else None)
+                if rep[5:] != want_:
+                    flat_problems.append(("channels-disagree", "run-step with flatResults reports %s, the Python session step %s" % (rep[5:], a_), {"step": i}))
+                else:
+                    reps[j] = a_                     # same values: carry the label of the API reply for the comparisons below
+            i += 1
+    rest["replies"] = [r for reps in rest["per_call_list"] for r in reps]
+    rest["per_call"] = ["|".join(reps) or "-" for reps in rest["per_call_list"]]
     sdt = case["dt"] if facts["dt"] else 1.0
     stride = 1 if facts["dt"] else int(round(1.0 / case["dt"]))
     raw, x = ["x"] * (n + 2 + stride), case["start"]
@@ -752,7 +783,11 @@ def run_case(case, facts):
     req += ["results", "mresults", "byeq", "flat", "batchdf %s %s" % (fbits(case["c0"]), eqs), "batchdict %s %s" % (fbits(case["c0"]), eqs)]
     exp += [api["results"], api["results"] if facts["dt"] else "n/a", rest["byeq"], rest["flat"], dfrows, dd]
     # ---- reference verdicts
-    problems = []
+    problems = list(flat_problems)
+    for which in ("batch_before", "batch_after"):
+        if which in api and api[which] != dd:
+            problems.append(("channels-disagree", "batch run on the bptk object %s its session differs from the batch run of a fresh object" % which.split("_")[1],
+                             {which: api[which], "fresh": dd}))
     if not (dd == jj == rest["run"]):
         problems.append(("channels-disagree", "batch dict / json / REST run differ", {"dict": dd, "json": jj, "rest_run": rest["run"]}))
     dfcols = ";".join("%d=" % e + ",".join("%s:%s" % (r.split(":")[0], r.split(":")[1].split(",")[i]) for r in dfrows.split("|"))
@@ -788,7 +823,7 @@ def run_case(case, facts):
 
 
 def case_show(case):
-    return {k: case[k] for k in ("a", "b", "s0", "c0", "start", "dt", "stop")} | ({"family": case["family"]} if case.get("family") else {}) | ({"multi": True} if case.get("multi") else {}) | {
+    return {k: case[k] for k in ("a", "b", "s0", "c0", "start", "dt", "stop")} | ({"family": case["family"]} if case.get("family") else {}) | ({"multi": True} if case.get("multi") else {}) | ({k_: True for k_ in ("flat", "reuse") if case.get(k_)}) | {
         "equations": [EQN[e] for e in case["eqs"]], "calls": [call_show(c) for c in case["calls"]]}
 
 
@@ -849,6 +884,10 @@ def run(chk):
             dist["calls"][c[0] + ("+settings" if c[-1] is not None else "")] = dist["calls"].get(c[0] + ("+settings" if c[-1] is not None else ""), 0) + 1
         if case.get("family") != "points":     # linear + look-back: abstract channel model + memo-level session of the driver;
             req += r; exp += e; owner += [idx] * len(r)   # points settings: real channels pairwise + reference only
+        for k_, cond in (("multi-scenario session", case.get("multi")), ("run-step flatResults", case.get("flat")), ("bptk object reused (batch before/after session)", case.get("reuse")),
+                         ("int-valued step settings", any(isinstance(c[-1], int) for c in case["calls"])), ("falsy step settings (0, 0.0)", any(c[-1] is not None and c[-1] == 0 for c in case["calls"])),
+                         ("calls after a completed stream", any(c[0] == "stream" for c in case["calls"][:-1]))):
+            dist.setdefault("wave7", {})[k_] = dist.setdefault("wave7", {}).get(k_, 0) + (1 if cond else 0)
         dist.setdefault("family", {})[case.get("family", "linear")] = dist.setdefault("family", {}).get(case.get("family", "linear"), 0) + 1
         chk.case(json.dumps(case_show(case), sort_keys=True), nontrivial=len(case["calls"]) > 1 or any(c[-1] is not None for c in case["calls"]),
                  sample=case_show(case) if idx % 17 == 3 else None)
